@@ -1626,7 +1626,8 @@ TRUSTED = [
 ]
 ASSUMPTIONS = [
     "A1 floats are reals (rounding ignored; dtype effects only in the bounded dtype sweeps)",
-    "A2 fixed-width integers are mathematical (accumulator width / wrap-around only in the bounded dtype sweep)",
+    "A2 fixed-width integers are mathematical; the one dtype fact carried into the proof is the accumulator of np.sum: the default accumulator is taken as exact, an explicit dtype= "
+    "(possibly narrower, the element type being arbitrary) falsifies the block-sum clause; actual wrap-around is exercised only in the bounded dtype sweeps",
     "A3 int(round(n*factor)) is any integer within 1/2 of n*factor",
     "enumerated: ndim 1..4; axis selections None / int / every subset (sorted tuple) / reversed full tuple / empty; bin: scalar factor form on all selections for 1-D/2-D and on None/int/full from 3-D; "
     "fourier_resample: all <,=,> length relations on every selected axis for every selection (4-D explicit full tuple covered by None), real/complex crossed for 1-D/2-D and alternated from 3-D, "
